@@ -308,7 +308,7 @@ var refsPct = 20
 // (bit 8 flag, 4 env, 2 file 1, 1 file 2).
 func genLoad(r *kit.Rng, s *setting, combo int) string {
 	g := &srcGen{r: r, s: s, names: []string{"VS_1", "VS_2", "VS_3"}, vars: map[string]string{}}
-	g.validate = r.Chance(45)
+	g.validate = r.Chance(35)
 	hasFlag, hasEnv, hasA, hasB := combo&8 != 0, combo&4 != 0, combo&2 != 0, combo&1 != 0
 	// which expansion variables exist
 	setPct := 60
